@@ -72,6 +72,20 @@ def _eval_bytes(body, var):
     return sat, None
 
 
+def nnf(f, neg=False):
+    """negation normal form (negations pushed to the atoms), so that `!(a && b)` splits into the terms `!a`, `!b`"""
+    if f is True or f is False:
+        return (not f) if neg else f
+    if f[0] == "atom":
+        return F.Not(f) if neg else f
+    if f[0] == "not":
+        return nnf(f[1], not neg)
+    parts = [nnf(g, neg) for g in f[1]]
+    if (f[0] == "and") != neg:
+        return F.And(*parts)
+    return F.Or(*parts)
+
+
 def rejection_terms(crate, fn):
     """Normalised rejection formula of a validating constructor: a list of
          ("forall", source value, per-element acceptance formula, element value)   input rejected unless every element passes
@@ -88,6 +102,7 @@ def rejection_terms(crate, fn):
         return [], "never rejects", I, out
     if R is True:
         return None, "always rejects", I, out
+    R = nnf(R)
     terms = list(R[1]) if R[0] == "or" else [R]
     res = []
     for t in terms:
